@@ -620,6 +620,10 @@ func ruleHeaderCrc(r *Report) {
 			}
 			fromCount := func(v ssa.Value) bool {
 				return valueDependsOn(v, func(x ssa.Value) bool {
+					// the reader's count of consumed bytes: its accessor, or the field the accessor returns
+					if isFieldLoad("recordio.checksumByteReader", "idx")(x) {
+						return true
+					}
 					c, ok := x.(*ssa.Call)
 					return ok && strings.HasSuffix(CalleeKey(c), "checksumByteReader.Count")
 				})
